@@ -783,12 +783,15 @@ def r12(ctx, facts):
                 node_op, shard_op = st[2][2]
                 n_seen, n_calls, _ = field_slice(cb, node_op)
                 s_seen, s_calls, s_bins = field_slice(cb, shard_op)
-                params = set(range(1, cb.argc + 1))
-                n_roots = {l for l, f in n_seen if l in params and l != 1 and f[:1] == (0,)}
-                s_roots = {l for l, f in s_seen if l in params and l != 1 and f[:1] == (1,)}
+                # one source element E (a closure parameter, or what the iterator yielded in a `for` loop): the node comes from
+                # E.0 and the shard from E.1 - same local, same path up to the last field
+                n_el = {(l, f[:-1]) for l, f in n_seen if f and f[-1] == 0}
+                s_el = {(l, f[:-1]) for l, f in s_seen if f and f[-1] == 1}
+                n_roots, s_roots = n_el, s_el
                 if any((c.decl or c.name or "").endswith("Fn::call") for c in n_calls):
                     translated += 1
-                ok = bool(n_roots & s_roots) and not s_bins and not [c for c in s_calls if (c.decl or c.name or "").split("::")[-1] not in ("clone", "deref", "from", "into")]
+                ok = bool(n_roots & s_roots) and not s_bins and not [c for c in s_calls if (c.decl or c.name or "").split("::")[-1] not in ("clone", "deref", "from", "into", "next", "iter", "into_iter", "as_slice", "as_ref", "copied", "cloned", "by_ref",
+                                                                                         "new", "with_capacity", "collect", "filter_map", "map", "default", "iter_mut", "deref_mut")]
                 r.instance("pair-from-one-entry:%s#%d" % (fn_short(cb.path), n), ok,
                            "a (node, shard) pair of a tablet is not built from the two halves of one raw replica entry (node from %s, shard from %s)"
                            % (sorted(n_seen)[:4], sorted(s_seen)[:4]), cb.stmt_span(st))
